@@ -25,7 +25,7 @@ theorem verify_of_compute (sp : Proof) (root leaf : Bytes) (h1 : 0 ≤ sp.total)
     sp.verify H root leaf = true := by
   unfold Proof.verify computeHashFromAunts
   rw [if_neg (by omega), if_neg (by omega), if_neg (by simp [h3]), hc]
-  simp [goBytesEqual]
+  simp [rootMatches]
 
 theorem partAt_verify (data : Bytes) (ps i : Nat) (h : i < numParts data.length ps) :
     (partAt H data ps i).proof.verify H (headerOf H data ps).hash (partAt H data ps i).bytes = true := by
@@ -271,8 +271,7 @@ theorem stateAfter_full_reader (data : Bytes) (ps : Nat) (hps : 0 < ps) (seen : 
 
 /-! ### soundness of an accepted part against the block's header -/
 
-theorem verify_some (sp : Proof) (root leaf : Bytes) (hr : root ≠ [])
-    (h : sp.verify H root leaf = true) :
+theorem verify_some (sp : Proof) (root leaf : Bytes) (h : sp.verify H root leaf = true) :
     0 ≤ sp.total ∧ 0 ≤ sp.index ∧ sp.leafHash = leafHash H leaf ∧
     computeRev H sp.index.toNat sp.total.toNat (leafHash H leaf) sp.aunts.reverse = some root := by
   unfold Proof.verify at h
@@ -290,15 +289,14 @@ theorem verify_some (sp : Proof) (root leaf : Bytes) (hr : root ≠ [])
         cases hc : computeRev H sp.index.toNat sp.total.toNat (leafHash H leaf) sp.aunts.reverse with
         | none =>
           rw [hc] at h
-          simp only [goBytesEqual, List.isEmpty_iff] at h
-          exact absurd h hr
+          simp [rootMatches] at h
         | some r =>
           rw [hc] at h
-          simp only [goBytesEqual, beq_iff_eq] at h
+          simp only [rootMatches, beq_iff_eq] at h
           rw [h]
 
-/-- with a non-empty root, `Verify` is the strict reading -/
-theorem verify_eq_strict (sp : Proof) (root leaf : Bytes) (hr : root ≠ []) :
+/-- `Verify` is exactly the strict reading -/
+theorem verify_eq_strict (sp : Proof) (root leaf : Bytes) :
     sp.verify H root leaf = sp.verifyStrict H root leaf := by
   unfold Proof.verify Proof.verifyStrict
   by_cases h1 : sp.total < 0
@@ -317,12 +315,12 @@ theorem verify_eq_strict (sp : Proof) (root leaf : Bytes) (hr : root ≠ []) :
         rw [e1, e2, e3]
         simp only [Bool.and_self, Bool.true_and]
         cases hc : computeHashFromAunts H sp.index.toNat sp.total.toNat sp.leafHash sp.aunts with
-        | none => simp [goBytesEqual, hr]
-        | some r => simp [goBytesEqual]
+        | none => simp [rootMatches]
+        | some r => simp [rootMatches]
 
 /-- A part stored under the block's header at slot `i` carries the block's bytes for that slot,
 or the two proofs (the stored one and the one `NewPartSetFromData` builds) yield a collision. -/
-theorem verified_bytes_or_collision {m : Nat} (hH : FixedLen H m) (hm : 0 < m)
+theorem verified_bytes_or_collision {m : Nat} (hH : FixedLen H m)
     (data : Bytes) (ps : Nat) (p : Part) (i : Nat) (hi : i < numParts data.length ps)
     (hidx : p.proof.index = (i : Int)) (htot : p.proof.total = (numParts data.length ps : Int))
     (hv : p.proof.verify H (headerOf H data ps).hash p.bytes = true) :
@@ -330,20 +328,7 @@ theorem verified_bytes_or_collision {m : Nat} (hH : FixedLen H m) (hm : 0 < m)
     ∃ x y, collide H i (numParts data.length ps) p.bytes (slice data ps i)
         p.proof.aunts.reverse (partAt H data ps i).proof.aunts.reverse = some (x, y) ∧
       IsCollision H x y := by
-  have hne : split data ps ≠ [] := by
-    intro h
-    have := split_length data ps
-    rw [h] at this
-    simp at this
-    omega
-  have hrl := proofsAux_root_length H hH (split data ps) hne
-  have hr : (headerOf H data ps).hash ≠ [] := by
-    intro h
-    simp only [headerOf] at h
-    rw [h] at hrl
-    simp at hrl
-    omega
-  obtain ⟨_, _, _, hc⟩ := verify_some H p.proof _ _ hr hv
+  obtain ⟨_, _, _, hc⟩ := verify_some H p.proof _ _ hv
   rw [hidx, htot] at hc
   simp only [Int.toNat_natCast] at hc
   have hh := proofs_complete H (split data ps) i (by rw [split_length]; exact hi)
